@@ -73,7 +73,7 @@ func autoDetectPacketSize(r io.Reader) (packetSize int, err error) {
 				return
 			} else if n == -1 {
 				var ls = packetSize - (l - packetSize)
-				if _, err = io.ReadFull(r, make([]byte, ls)); err == io.ErrUnexpectedEOF {
+				if _, err = io.ReadFull(r, make([]byte, ls)); err == io.EOF || err == io.ErrUnexpectedEOF {
 					// Input ends before the next packet starts: this is dealt with when fetching the next packet
 					err = nil
 				} else if err != nil {
@@ -94,10 +94,11 @@ func autoDetectPacketSize(r io.Reader) (packetSize int, err error) {
 func peek(r io.Reader, b []byte) (shouldRewind bool, err error) {
 	if br, ok := r.(*bufio.Reader); ok {
 		var bs []byte
-		bs, err = br.Peek(len(b))
-		if err != nil {
+		// An input shorter than the buffer is not an error here, missing bytes are left to zero
+		if bs, err = br.Peek(len(b)); err != nil && !(err == io.EOF && len(bs) > 0) {
 			return
 		}
+		err = nil
 		copy(b, bs)
 		return false, nil
 	}
